@@ -13,17 +13,22 @@
    (C17_dead_end_refuted, confirmed on the real code by the driver on every run; KNOWN_FINDINGS key
    undo-kernel-switch-crash-after-modeenv).
    Ghost state: gk/gb = revisions that booted and that snapd then began to mark successful (initially k0 / b0);
-   ak/ab = revisions requested for trial since the last completed mark-successful. *)
+   ak/ab = the revisions under trial: replaced (not extended) by each completed setNext -- emptied by a completed
+   request for the current revision, a completed undo or a completed mark-successful; while the writes of a request
+   are in flight (or were cut by a power loss) the old and the new candidate are both in the set. *)
 From Coq Require Import List NArith Bool.
 Import ListNotations.
 Require Import V.models.Boot V.proofs.BootProofs.
 Open Scope N_scope.
 
-(* UC20: whatever kernel and base the initramfs mounts is known-good or one of the revisions requested for trial *)
-Theorem C17_boots_good_or_try : forall fx g k0 b0 evs k b, fx || g = true ->
+(* UC20: whatever kernel and base the initramfs mounts, at the moment it mounts them, is known-good or THE revision
+   under trial; and the kernel snap it mounts is the image grub chainloaded (kernel.efi / try-kernel.efi agree with the
+   initramfs' choice). The set under trial is replaced by every completed request: see fin_ak in models/Boot.v. *)
+Theorem C17_boots_good_or_try : forall fx g k0 b0 evs i k b, fx || g = true ->
   let m := run20 fx g (init20 k0 b0) evs in
-  ph m = PhRun k b -> (In k (gk m) \/ In k (ak m)) /\ (In b (gb m) \/ In b (ab m)).
-Proof. intros * Hg m Hp. eapply boots_good_or_try; eauto. exists evs; reflexivity. Qed.
+  ph m = PhFw i -> ph (step20 fx g m EInitramfs) = PhRun k b ->
+  k = i /\ (In k (gk m) \/ In k (ak m)) /\ (In b (gb m) \/ In b (ab m)).
+Proof. intros * Hg m Hp Hs. eapply mounts_good_or_try; eauto. exists evs; reflexivity. Qed.
 Print Assumptions C17_boots_good_or_try.
 
 (* UC20: in every reachable state, also between two writes, kernel.efi and the modeenv base name known-good revisions *)
@@ -75,8 +80,8 @@ Print Assumptions C17_failed_base_trial_returns.
    requested for trial, snap_kernel/snap_core (never empty) always name known-good revisions. Every operation is one
    SetBootVars call, so a power loss falls before or after it. *)
 Theorem C17_uc16_boots_good_or_try_partial : forall k0 c0 evs k c,
-  ph16 (run16 (init16 k0 c0) evs) = P16Run k c ->
   let m := run16 (init16 k0 c0) evs in
+  ph16 m = P16Off -> ph16 (step16 m E16Firmware) = P16Run k c ->
   (In k (gk16 m) \/ In k (ak16 m)) /\ (In c (gc16 m) \/ In c (ac16 m)) /\
   In (sk (s16 m)) (gk16 m) /\ In (sc (s16 m)) (gc16 m).
 Proof. exact boots16_good_or_try. Qed.
@@ -115,4 +120,13 @@ Example failed_trial_state_reachable :
 Proof. vm_compute. reflexivity. Qed.
 Example repaired_undo_survives_the_window :
   ph (run20 true false (init20 1 1) dead_end_witness) = PhRun 2 1.
+Proof. vm_compute. reflexivity. Qed.
+Example cancelled_trial_is_not_under_trial :
+  let m := run20 false true (init20 1 1)
+             [EFirmware; EInitramfs; EOp (SetB 2 false); EWrite; EOp (SetB 1 false); EWrite] in
+  ab m = [] /\ m_bst (me (st m)) = SDef.
+Proof. vm_compute. auto. Qed.
+Example single_revision_under_trial :
+  ak (run20 false true (init20 1 1)
+        [EFirmware; EInitramfs; EOp (SetK 2 false); EWrite; EWrite; EWrite; EOp (SetK 3 false); EWrite; EWrite; EWrite]) = [3].
 Proof. vm_compute. reflexivity. Qed.
